@@ -30,7 +30,7 @@ pub fn alt_err(site: Site, date: NaiveDate, s_dhuhr: i64, s: i64) -> f64 {
 }
 
 pub fn judge(ctx: &Ctx, l: &mut Local, p: &Params, site: Site, date: NaiveDate) {
-    let r = prayer_times_dt(p, site.loc(), date, None);
+    let r = pt(p, site.loc(), date, None);
     l.evals += 1;
     let case = || PtCase::new(p, site, date);
     let Some(sd) = secs(&r, Prayer::Dhuhr) else { return };
@@ -68,12 +68,12 @@ pub fn judge(ctx: &Ctx, l: &mut Local, p: &Params, site: Site, date: NaiveDate) 
 pub const WEATHERS: [(f64, f64); 6] = [(100.0, -90.0), (100.0, 57.0), (1050.0, -90.0), (1050.0, 57.0), (1010.0, 14.0), (700.0, 30.0)];
 
 pub fn judge_weather(ctx: &Ctx, l: &mut Local, p: &Params, site: Site, date: NaiveDate) {
-    let base = prayer_times_dt(p, site.loc(), date, None);
+    let base = pt(p, site.loc(), date, None);
     l.evals += 1;
     let interval_fajr = p.intervals[&Prayer::Fajr] != 0.0;
     let interval_isha = p.intervals[&Prayer::Isha] != 0.0;
     for (wp, wt) in WEATHERS {
-        let r = prayer_times_dt(p, site.loc(), date, Some(weather(wp, wt)));
+        let r = pt(p, site.loc(), date, Some(weather(wp, wt)));
         l.evals += 1;
         l.nontrivial += 1;
         let case = || PtCase::new(p, site, date).with_weather(Some((wp, wt)));
